@@ -24,6 +24,8 @@ pub struct OrderQueue {
     orders: DashMap<OrderId, Arc<OrderType<()>>>,
     /// A queue of order IDs to maintain FIFO order
     order_ids: SegQueue<OrderId>,
+    /// Order IDs that go out ahead of `order_ids`: orders handed back to the head of the queue
+    front_ids: SegQueue<OrderId>,
 }
 
 impl OrderQueue {
@@ -32,6 +34,7 @@ impl OrderQueue {
         Self {
             orders: DashMap::new(),
             order_ids: SegQueue::new(),
+            front_ids: SegQueue::new(),
         }
     }
 
@@ -42,10 +45,18 @@ impl OrderQueue {
         self.order_ids.push(order_id);
     }
 
+    /// Hand an order back to the head of the queue: it is popped before every order added
+    /// with `push`. Used for an order that was taken out and keeps its time priority.
+    pub fn push_front(&self, order: Arc<OrderType<()>>) {
+        let order_id = order.id();
+        self.orders.insert(order_id, order);
+        self.front_ids.push(order_id);
+    }
+
     /// Attempt to pop an order from the queue
     pub fn pop(&self) -> Option<Arc<OrderType<()>>> {
         loop {
-            if let Some(order_id) = self.order_ids.pop() {
+            if let Some(order_id) = self.front_ids.pop().or_else(|| self.order_ids.pop()) {
                 // If the order was removed, pop will return None, but the ID was in the queue.
                 // In this case, we loop and try to get the next one.
                 if let Some((_, order)) = self.orders.remove(&order_id) {
